@@ -12,6 +12,7 @@ import unittest
 
 PKG = 'wpkg'
 LAYERMOD = PKG + '.layers'
+ZZMOD = 'zzlayers'      # a second home for layers: its dotted names sort after 'zope.testrunner...'
 
 
 class CustomError(Exception):
@@ -244,8 +245,9 @@ def populate_layers(g):
         # a hook that fails at the call itself (a C callable, a wrong signature): no frame of
         # the hook's own ever enters the traceback, nothing of it is observable in the trace
         c_raise = functools.partial(int, 'not-a-number')
+        home = L.get('mod') or LAYERMOD
         if L['kind'] == 'class':
-            ns = {'__module__': LAYERMOD}
+            ns = {'__module__': home}
             for h in L['hooks']:
                 ns[h] = _cls_hook(h)
             for h in L.get('c_raise') or []:
@@ -253,13 +255,31 @@ def populate_layers(g):
             obj = type(name, bases or (object,), ns)
         else:
             obj = InstLayer(name, bases)
+            obj.__module__ = home
             for h in L['hooks']:
                 setattr(obj, h, _inst_hook(h, name))
             for h in L.get('c_raise') or []:
                 setattr(obj, h, c_raise)
         objs[name] = obj
         g[name] = obj
+    rt.extra['layer_objs'] = objs
     hook('module.import', LAYERMOD)
+
+
+def populate_zz(g):
+    """The module 'zzlayers': the layers of the world that live there (created with the rest)."""
+    import importlib
+    importlib.import_module(LAYERMOD)
+    for L in rt.world['layers']:
+        if L.get('mod') == ZZMOD:
+            g[L['name']] = rt.extra['layer_objs'][L['name']]
+
+
+def layer_module(world, lname):
+    for L in world['layers']:
+        if L['name'] == lname:
+            return L.get('mod') or LAYERMOD
+    return LAYERMOD
 
 
 # ---------------------------------------------------------------------------------------
@@ -327,7 +347,7 @@ def _make_class(modname, c, layers):
     ns['debug'] = debug
     if c.get('layer') is not None:
         if c.get('layer_as_str'):
-            ns['layer'] = LAYERMOD + '.' + c['layer']
+            ns['layer'] = layer_module(rt.world, c['layer']) + '.' + c['layer']
         else:
             ns['layer'] = layers[c['layer']]
     if c.get('level') is not None:
@@ -439,4 +459,5 @@ def populate_tests(g):
 
 # source text of the stubs
 LAYERS_STUB = "from vsim import simrt as _rt\n_rt.populate_layers(globals())\n"
+ZZ_STUB = "from vsim import simrt as _rt\n_rt.populate_zz(globals())\n"
 TESTS_STUB = "from vsim import simrt as _rt\n_rt.populate_tests(globals())\n"
